@@ -1,0 +1,9 @@
+//go:build verif
+
+package fs
+
+// VerifToRegexString exposes toRegexString (the glob pattern -> regular expression rewriting) to the
+// C21 correspondence harness in /verif. Add-only; compiled only with the `verif` build tag.
+func VerifToRegexString(pattern string) string {
+	return toRegexString(pattern)
+}
